@@ -86,9 +86,10 @@ def atomOpShape : List PToken → Bool
        | _ => false)
   | [] => false
 
-/-- the partial claim asked for (binary left-to-right operators of any priorities between atoms): stated, NOT proved —
-    it needs the right-spine invariant of the node array; the correspondence suite and TREECHK check it on every
-    generated instance instead -/
+/-- the partial claim asked for (binary operators of any priorities between atoms): stated, NOT proved end to end — it needs
+    the array-level right-spine simulation; proved pieces are in Garnish/Lemmas/ParserInv.lean (`walkLoop_chain`: on a parent
+    chain the capped walk never hits its cap and computes the bottom-up search; `step_binop_post`; trivia invisibility).
+    The correspondence suite and TREECHK check the claim on every generated instance instead. -/
 def C04_parse_proper_partial : Prop := ∀ toks, atomOpShape toks = true → C04_holds_on toks
 
 end Garnish.Props.C04
